@@ -2397,6 +2397,38 @@ def grid_cases():
     for v in GRID_VALUES:
         for route in ('var', 'inline'):
             yield {'doc': 'et', 'xsd': '1.0', 'ctx': None, 'v': v, 'ts': list(GRID_TYPES), 'route': route}
+    yield from kind_grid_cases()
+
+
+# kind tests WITH an occurrence indicator nested as array member type, map value type, function-test parameter type
+# and function-test return type; values whose cardinality matters (members of 0, 1, 2 nodes of the kind; inline
+# functions declared with the singleton / the occurrence form)
+KIND_GRID = [     # (kind test text, node indices of that kind in the fixed document, a node of another kind)
+    ('attribute()', [4, 5], 1), ('attribute(*)', [4, 5], 1), ('attribute(x)', [4, 4], 5), ('element()', [1, 2], 4),
+    ('element(*)', [2, 3], 6), ('element(b)', [2, 2], 1), ('node()', [1, 6], None), ('text()', [6, 6], 7),
+    ('comment()', [7, 7], 6), ('processing-instruction()', [8, 8], 7), ('processing-instruction(tgt)', [8, 8], 7),
+    ('document-node()', [0, 0], 1), ('document-node(element(a))', [0, 0], 1), ('namespace-node()', [9, 9], 1), ('item()', [1, 4], None),
+]
+
+
+def kind_grid_cases():
+    key = ['A', 'xs:string', "'k'"]
+    for kt, idx, other in KIND_GRID:
+        two = ['S', [['N', idx[0]], ['N', idx[1]]]]
+        members = [['N', idx[0]], two, ['S', []]] + ([['N', other], ['S', [['N', idx[0]], ['N', other]]]] if other is not None else [])
+        occs = ['', '?', '*', '+']
+        arr_ts = ['array(%s%s)' % (kt, o) for o in occs]
+        map_ts = ['map(xs:string, %s%s)' % (kt, o) for o in occs]
+        fun_ts = ['function(%s%s) as xs:integer' % (kt, o) for o in occs] + ['function() as %s%s' % (kt, o) for o in occs] + \
+                 ['function(xs:integer, %s%s) as %s%s' % (kt, o, kt, o2) for o, o2 in (('*', '+'), ('+', '*'), ('?', ''))]
+        for i, m in enumerate(members):
+            route = 'var' if i % 2 == 0 else 'inline'
+            yield {'doc': 'et', 'xsd': '1.0', 'ctx': None, 'v': ['R', [m]], 'ts': arr_ts, 'route': route}
+            yield {'doc': 'lx', 'xsd': '1.0', 'ctx': None, 'v': ['R', [m, ['N', idx[0]]]], 'ts': arr_ts, 'route': route}
+            yield {'doc': 'et', 'xsd': '1.0', 'ctx': None, 'v': ['M', [[key, m]]], 'ts': map_ts, 'route': route}
+        for o in occs:
+            for f in (['F', [kt + o], 'xs:integer', '1'], ['F', [], kt + o], ['F', ['xs:integer', kt + o], kt + o]):
+                yield {'doc': 'et', 'xsd': '1.0', 'ctx': None, 'v': f, 'ts': fun_ts, 'route': 'var'}
 
 
 # --------------------------------------------------------------------------
